@@ -194,6 +194,7 @@ namespace bloch::runtime {
         std::vector<RuntimeField> instanceFields;
         std::vector<RuntimeField> staticFields;
         std::vector<Value> staticStorage;
+        bool staticsInitialised = false;  // set when initStaticFields() starts on this class
         std::unordered_map<std::string, size_t> instanceFieldIndex;
         std::unordered_map<std::string, size_t> staticFieldIndex;
         std::unordered_map<std::string, std::vector<RuntimeMethod>> methods;
